@@ -427,7 +427,8 @@ def gen_calib(r, count, with_single):
         tr, tc = sub_range(r, rows), sub_range(r, cols)
         weights = dict(scalar=[r.choice([1, 2, 3]) for _ in range(nt)]) if (not multi and r.random() < 0.5) else None
         cases.append(dict(kind="calib", ff=r.choice(["abs", "sq"]), free=0, multi=multi, steps=steps, pattern=pattern,
-                          offsets=offsets, targets=targets, trng=rng2(tr, tc), orng=rng3((None, None), tr, tc),
+                          offsets=offsets, targets=targets, trng=rng2(tr, tc),
+                          orng=rng3((0, steps) if (multi and i % 2 == 0) else (None, None), tr, tc),
                           weights=weights, bypass=False, seed=r.randrange(1, 10000), islands=2, pop=7, generations=2,
                           evolutions=r.choice([3, 4, 5]), num_best=r.choice([None, 3])))
     if with_single:
@@ -567,6 +568,12 @@ def leg_calib(ctx, cases):
                     what="a calibration with a single scalar parameter raises while re-simulating the champions "
                          f"({o['cls']}: {o['msg'][:120]})",
                     sig=dict(clause="resimulation", cls="single_parameter_raises", exc=o["cls"])))
+            elif c["multi"] and c["orng"]["time"][1] is None and o["cls"] == "ValueError" and "'stop'" in o["msg"]:
+                ctx.violations.append(Violation(
+                    clause="resimulation", case=jc, observed=o, expected="champions re-simulated and returned",
+                    what="time-domain calibration with an open result time range (4-value result_fit_range): run_evolve "
+                         f"raises after the optimisation ({o['cls']}: {o['msg'][:120]})",
+                    sig=dict(clause="resimulation", cls="open_result_time_range", exc=o["cls"])))
             else:
                 ctx.broken.append(Broken("correspondence", "run_evolve raised", str(o)[:800], jc))
             continue
